@@ -716,7 +716,9 @@ class DAGRunConcurrentManager(DAGRunManagerLike):
             self._node_storage.set_node_result(node_id, result)
 
             # TODO: Needs to reorganize saving policy for artifact storage
-            await self.ctx.save_node_result(node_id, result)
+            # A request for the next iteration and an error contained by OneOf are not results of the node
+            if not isinstance(result, (Recurrent, BaseException)):
+                await self.ctx.save_node_result(node_id, result)
 
         finally:
             if not to_unlock_descendants:
